@@ -1487,9 +1487,11 @@ class EdgeAssemblyChanger(GeometryChanger):
                 core.add(a, spatialLocator)
                 self._newAssembliesAdded.append(a)
 
-        parameters.ALL_DEFINITIONS.resetAssignmentFlag(
-            SINCE_LAST_GEOMETRY_TRANSFORMATION
-        )
+        if self._newAssembliesAdded:
+            # only an actual change of the geometry starts a new "since the last transformation" era
+            parameters.ALL_DEFINITIONS.resetAssignmentFlag(
+                SINCE_LAST_GEOMETRY_TRANSFORMATION
+            )
 
     def removeEdgeAssemblies(self, core):
         """
